@@ -41,6 +41,7 @@ namespace sim
    constexpr int IO_PROG_STATES = 6;
    constexpr int IO_PROG_MUSTIF = 7;
    constexpr int IO_PROG_TRACE = 9;   // 9 / 10: the tracer over the recording control (JSON grammar; hidden internals / all rules)
+   constexpr int IO_PROG_NESTED = 11;  // parse_nested from an action (C05 jobs)
    constexpr int IO_PROG_HOOKS = 8;   // contrib control adaptors and control_action (C08 jobs)  // must_if control with per-rule messages (C05 jobs)  // 1 JSON text, 2 line-oriented statements, 3 unsigned / 4 signed integer rules with actions, 5 HTTP chunked body
 
    RunResult run_io( int io_class, const Case& c );
